@@ -987,6 +987,21 @@ class Ev:
             return Obj(ci.name, fields)
         if q and q.startswith("datetime."):
             return Obj(q, {k: self.ev(v, env, module) for k, v in kws.items()})
+        if d in ("min", "max") and len(args) == 2 and not kws and not any(isinstance(a, ast.Starred) for a in args):
+            # a clamp against a constant: not a bit operation; the result is a fresh source that names the clamp, so that a rule can
+            # accept it exactly when the bound lies outside the field's valid range and report it otherwise
+            a0, a1 = self.ev(args[0], env, module), self.ev(args[1], env, module)
+            cst, val = (a0, a1) if isinstance(a0, BV) and a0.is_const() else (a1, a0)
+            if isinstance(cst, BV) and cst.is_const() and isinstance(val, (Lin, BV)) and not (isinstance(val, BV) and val.is_const()):
+                c = cst.value()
+                if isinstance(val, Lin) and val.trunc:
+                    nm = f"lin:{val.raw.name if isinstance(val.raw, Sym) else '?'}*{val.mul}+{val.add}"
+                elif isinstance(val, BV):
+                    srcs = sorted({n_ for _, n_, _ in val.sources()})
+                    nm = "+".join(srcs) if srcs else "?"
+                else:
+                    raise Unsupported(f"call {d} of a non-integer value")
+                return BV.src(f"{d}({c}):{nm}", 8 if 0 <= c < 256 else 16)
         # methods on values we do not model
         raise Unsupported(f"call {d or unparse(e.func)[:40]}")
 
